@@ -661,7 +661,7 @@ pub fn run_state_case(spec: &Spec, out: &mut dyn Write) -> GeomOut {
                     score.unwrap(), worst_at.0, worst_at.1, worst_at.2, worst_at.3, -worst, a, b, angle));
             }
             if score.is_none() && worst > 1e-9 && area >= sarea * n as f64 {
-                add(&mut f, "C12,C01", format!(
+                add(&mut f, "C12", format!(
                     "the state is reported as overlapping although all copies and images are separated by at least {:e}{}", worst,
                     if collinear { " [class=collinear-edges]" } else { "" }));
             }
@@ -776,8 +776,9 @@ pub fn run_pair_case(spec: &Spec, out: &mut dyn Write) -> GeomOut {
                     add(&mut f, "C12", format!(
                         "the answer changes from {} to {} when both copies are moved by a common rigid motion/reflection (separation {:e}){}", p, ab, sep,
                         match &items {
-                            Items::Segs(s) if has_collinear_edges(&poly_vertices(s, &t1), &poly_vertices(s, &t2)) && ab => " [class=collinear-edges]",
-                            Items::Segs(s) if only_vertex_crossings(&poly_vertices(s, &t1), &poly_vertices(s, &t2)) && !ab => " [class=vertex-only-crossings]",
+                            // the wrong one of the two answers is "yes" when the copies are separated, "no" when they overlap
+                            Items::Segs(s) if sep > 0. && has_collinear_edges(&poly_vertices(s, &t1), &poly_vertices(s, &t2)) => " [class=collinear-edges]",
+                            Items::Segs(s) if sep < 0. && only_vertex_crossings(&poly_vertices(s, &t1), &poly_vertices(s, &t2)) => " [class=vertex-only-crossings]",
                             _ => "",
                         }));
                 }
